@@ -28,6 +28,9 @@
     (D2) overwrite_item (replacement of the document root in place) has no core counterpart and no forest-level
     model: that call remains presupposed.  (D3) allocation failure is not modelled at Tier B: add / replace are
     stated for a successful copy of the key.
+    [Second round, sections 9-10 at the end of this file: D2 is now transliterated and proved (overwrite_item:
+    TB_patch_root_overwrite, TB_patch_root_remove, with counterexamples outside the hypotheses), and
+    replace-in-object and duplicate are composed end to end (TB_e2e_replace_in_object, TB_e2e_duplicate).]
 
     Sections 7-8 compose the two halves END TO END (heap-level code on [WF h F] |-> value-level primitive on
     the reified container, no [spec_*] in the statement).  For the primitives that release or allocate strings
@@ -720,3 +723,347 @@ Theorem TB_nonvacuous_heap_runs :
   (exists h', SortDefs.sort_object (SortDefs.sort_fuel 3) (Some 1%positive) true ex_heap = Ret (tt, h')).
 Proof. exact ex_heap_runs. Qed.
 Print Assumptions TB_nonvacuous_heap_runs.
+
+(** ------------------------------------------------------------------ 9. overwrite_item (D2): replacement of the root in place *)
+
+(** SECOND ROUND (TierBridgeOverwrite*.v, TierBridgeE2E2.v).  D2 is no longer presupposed: [overwrite_item] of
+    cJSON_Utils.c and the statement sequences of [apply_patch] that call it for the path "" are transliterated
+    on the heap (TierBridgeOverwriteDefs.v: [overwrite_item root (links, fields)] with the replacement BY VALUE,
+    [patch_root_overwrite object value] = overwrite_item(object, *value); cJSON_free(value); free and clear
+    object->string, [patch_root_remove object] = overwrite_item(object, invalid)) and proved against the forest:
+    [r] the document root with data [dr], children [csr]; [x] the detached replacement with data [dx], children
+    [csx]; [key_owned d]: a key, if any, is not a cJSON_StringIsConst one; [ov_released] / [patch_released]: the
+    blocks released, in order; [overwrite_root r x dx csx F]: the forest in which [r] carries [dx] without key
+    and the children [csx], the old tree of [r] and the shell [x] gone; [put_struct r l nd h]: both parts of
+    the struct stored at [r]. *)
+From CJ Require Import CoreRefineDelete CoreRefineDupNode TierBridgeOverwriteDefs TierBridgeOverwrite TierBridgeOverwriteEx TierBridgeE2E2.
+
+(** the function itself: returns normally; the root's key, valuestring and children are released (in that order,
+    the children as cJSON_Delete releases them), then BOTH parts of the by-value struct — links included —
+    are stored at the root *)
+Theorem TB_overwrite_item_run : forall h F r dr csr,
+  WF h F -> find_root r F = Some (T r dr csr) -> is_ref dr = false -> key_owned dr ->
+  forall (l : ptr * ptr) (nd : ndata),
+  overwrite_item (Some r) (l, nd) h = Ret (tt, put_struct r l nd (free_all (ov_released dr csr) h)).
+Proof. exact overwrite_item_run. Qed.
+Print Assumptions TB_overwrite_item_run.
+Theorem TB_overwrite_released : forall dr csr x dx,
+  ov_released dr csr = opt_list (rd_key dr) ++ opt_list (rd_vstr dr) ++ free_order csr /\
+  patch_released dr csr x dx = ov_released dr csr ++ [x] ++ opt_list (rd_key dx).
+Proof. exact (fun dr csr x dx => conj eq_refl eq_refl). Qed.
+Theorem TB_overwrite_result_heap : forall h r x dr dx csr csx,
+  patch_heap h r x dr dx csr csx =
+  put_struct r (None, None) (mk_dat (rd_no_key dx) (tid <$> csx)) (free_all (patch_released dr csr x dx) h).
+Proof. exact (fun h r x dr dx csr csx => eq_refl). Qed.
+
+(** MAIN THEOREM (root case of add / replace / copy / move).  For a well-formed heap, a forest root [r] that is
+    not a reference node and whose key, if any, is owned, and a detached replacement root [x] whose key, if
+    any, is owned: the sequence returns normally with the explicit heap [h']; [h'] encodes the forest in
+    which the root's subtree is replaced by the replacement's data and children UNDER THE ROOT'S IDENTITY;
+    the ledger loses exactly the released blocks; and — provided the strings that the replacement's
+    valuestring and children refer to are not among the released blocks — the reified new root is
+    [PatchDefs.set_key (reify replacement) None], the expression of PatchDefs.apply_patch at that point
+    ([TB_patch_model_root_cases]) *)
+Theorem TB_patch_root_overwrite : forall h F r x dr dx csr csx,
+  WF h F -> find_root r F = Some (T r dr csr) -> find_root x F = Some (T x dx csx) -> r <> x ->
+  is_ref dr = false -> key_owned dr -> key_owned dx ->
+  let F' := overwrite_root r x dx csx F in
+  let bs := patch_released dr csr x dx in
+  let h' := patch_heap h r x dr dx csr csx in
+  patch_root_overwrite (Some r) (Some x) h = Ret (tt, h') /\
+  WF h' F' /\
+  owned F ≡ₚ bs ++ owned F' /\ lib_live h' = lib_live h ∖ list_to_set bs /\ (NoLeak h F -> NoLeak h' F') /\
+  find_root r F' = Some (T r (rd_no_key dx) csx) /\
+  ((forall b, b ∈ opt_list (rd_vstr dx) ++ (csx ≫= str_blocks) -> b ∉ bs) ->
+   reify (h_str h') (T r (rd_no_key dx) csx) = PatchDefs.set_key (reify (h_str h) (T x dx csx)) None).
+Proof. exact patch_root_overwrite_sim. Qed.
+Print Assumptions TB_patch_root_overwrite.
+
+(** the rest of the frame: released blocks were live library blocks; tags, allocator state and hooks untouched;
+    the string heap loses exactly the released blocks *)
+Theorem TB_patch_root_overwrite_frame : forall h F r x dr dx csr csx,
+  WF h F -> find_root r F = Some (T r dr csr) -> find_root x F = Some (T x dx csx) -> r <> x ->
+  is_ref dr = false -> key_owned dr -> key_owned dx ->
+  owned F ≡ₚ patch_released dr csr x dx ++ owned (overwrite_root r x dx csx F) /\
+  lib_live (patch_heap h r x dr dx csr csx) = lib_live h ∖ list_to_set (patch_released dr csr x dx) /\
+  (NoLeak h F -> NoLeak (patch_heap h r x dr dx csr csx) (overwrite_root r x dx csx F)) /\
+  (forall b, b ∈ patch_released dr csr x dx -> b ∈ lib_live h) /\
+  h_own (patch_heap h r x dr dx csr csx) = h_own h /\ h_next (patch_heap h r x dr dx csr csx) = h_next h /\
+  h_req (patch_heap h r x dr dx csr csx) = h_req h /\ h_hooks (patch_heap h r x dr dx csr csx) = h_hooks h /\
+  (forall b, h_str (patch_heap h r x dr dx csr csx) !! b =
+             if decide (b ∈ patch_released dr csr x dx) then None else h_str h !! b).
+Proof. exact patch_root_overwrite_ledger. Qed.
+Print Assumptions TB_patch_root_overwrite_frame.
+
+(** the no-aliasing hypothesis holds when the replacement owns its strings (no reference, children without
+    constant keys / string references): every tree the parser, cJSON_Duplicate of such a tree, and the
+    utilities build *)
+Theorem TB_no_aliasing_overwrite : forall h F r x dr dx csr csx,
+  WF h F -> find_root r F = Some (T r dr csr) -> find_root x F = Some (T x dx csx) -> r <> x ->
+  is_ref dr = false -> key_owned dr -> key_owned dx ->
+  is_ref dx = false -> Forall owns_strings csx ->
+  forall b, b ∈ opt_list (rd_vstr dx) ++ (csx ≫= str_blocks) -> b ∉ patch_released dr csr x dx.
+Proof. exact patch_no_aliasing_of_owned. Qed.
+Print Assumptions TB_no_aliasing_overwrite.
+
+(** root case of remove: [overwrite_item(object, invalid)] *)
+Theorem TB_patch_root_remove : forall h F r dr csr,
+  WF h F -> find_root r F = Some (T r dr csr) -> is_ref dr = false -> key_owned dr ->
+  patch_root_remove (Some r) h = Ret (tt, remove_heap h r dr csr) /\
+  WF (remove_heap h r dr csr) (invalidate_root r F) /\
+  owned F ≡ₚ ov_released dr csr ++ owned (invalidate_root r F) /\
+  lib_live (remove_heap h r dr csr) = lib_live h ∖ list_to_set (ov_released dr csr) /\
+  (NoLeak h F -> NoLeak (remove_heap h r dr csr) (invalidate_root r F)) /\
+  find_root r (invalidate_root r F) = Some (T r rd_invalid []) /\
+  (forall St, reify St (T r rd_invalid []) = PatchDefs.invalid_node).
+Proof. exact patch_root_remove_sim. Qed.
+Print Assumptions TB_patch_root_remove.
+
+(** where the value-level model computes these values: the root case of copy / move ([finish_add] with the
+    empty path), of add / replace, and of remove in PatchDefs.apply_patch *)
+Theorem TB_patch_model_root_cases :
+  (forall object value cs, PatchDefs.finish_add object value [] cs = Ok (0, PatchDefs.set_key value None)) /\
+  (forall object patch (cs : bool) i pathn op j v d,
+     CompareDefs.get_object_item patch (Some PatchDefs.s_path) cs = Some (i, pathn) ->
+     Tree.is_string pathn = true -> Tree.n_vstr pathn = Some [] ->
+     PatchDefs.decode_patch_operation patch cs = Ok op -> op = PatchDefs.ADD \/ op = PatchDefs.REPLACE ->
+     CompareDefs.get_object_item patch (Some PatchDefs.s_value) cs = Some (j, v) ->
+     PatchDefs.cJSON_Duplicate v = Some d ->
+     PatchDefs.apply_patch object patch cs = Ok (0, PatchDefs.set_key d None, patch)) /\
+  (forall object patch (cs : bool) i pathn,
+     CompareDefs.get_object_item patch (Some PatchDefs.s_path) cs = Some (i, pathn) ->
+     Tree.is_string pathn = true -> Tree.n_vstr pathn = Some [] ->
+     PatchDefs.decode_patch_operation patch cs = Ok PatchDefs.REMOVE ->
+     PatchDefs.apply_patch object patch cs = Ok (0, PatchDefs.invalid_node, patch)).
+Proof. exact (conj finish_add_root (conj apply_patch_root_add_replace apply_patch_root_remove)). Qed.
+Print Assumptions TB_patch_model_root_cases.
+
+(** OUTSIDE the hypotheses, by concrete counterexample.  (1) A root whose key carries cJSON_StringIsConst (block
+    102 is the caller's: tag [Foreign]; every other hypothesis holds): overwrite_item releases the borrowed key —
+    [ForeignFree] — in both root sequences, although cJSON_Delete of the same root returns normally and leaves
+    the block alone. *)
+Theorem TB_overwrite_const_key_refuted :
+  WF owc_heap owc_F /\ find_root 1%positive owc_F = Some (T 1 owc_dr []) /\
+  find_root 10%positive owc_F = Some (ow_num 10 5 None) /\ is_ref owc_dr = false /\
+  is_const owc_dr = true /\ rd_key owc_dr = Some 102%positive /\ ~ key_owned owc_dr /\
+  h_own owc_heap !! 102%positive = Some Foreign /\ 102%positive ∈ h_live owc_heap /\
+  patch_root_overwrite (Some 1%positive) (Some 10%positive) owc_heap = Err ForeignFree /\
+  patch_root_remove (Some 1%positive) owc_heap = Err ForeignFree /\
+  (exists h', cJSON_Delete (Some 1%positive) owc_heap = Ret (tt, h') /\ 102%positive ∈ h_live h').
+Proof. exact overwrite_const_key_refuted. Qed.
+Print Assumptions TB_overwrite_const_key_refuted.
+
+(** (2) A "root" that has siblings — member 2 ("a") of the object 1 of [ex_heap] (members 2 3 4), as in
+    cJSONUtils_ApplyPatches(cJSON_GetObjectItem(big, "a"), patches): the call returns normally, but the memcpy
+    has overwritten next/prev with the replacement's NULL links: the member has no next, the object has ONE
+    member instead of three, members 3 and 4 (and 4's elements 5 6) are still live library blocks that nothing
+    reaches, 3's prev still points at 2, and the member's key block 101 is released *)
+Theorem TB_overwrite_member_refuted :
+  WF ex_heap ex_F /\ find_root 2%positive ex_F = None /\ find_tree 2%positive ex_F = Some m2 /\
+  find_root 7%positive ex_F = Some ex_item /\
+  out_val (get_next (Some 2%positive) ex_heap) = inl (Some (Some 3%positive)) /\
+  out_val (cJSON_GetArraySize (Some 1%positive) ex_heap) = inl (Some 3) /\
+  exists h',
+    patch_root_overwrite (Some 2%positive) (Some 7%positive) ex_heap = Ret (tt, h') /\
+    out_val (get_next (Some 2%positive) h') = inl (Some None) /\
+    out_val (cJSON_GetArraySize (Some 1%positive) h') = inl (Some 1) /\
+    out_val (get_prev (Some 3%positive) h') = inl (Some (Some 2%positive)) /\
+    3%positive ∈ lib_live h' /\ 4%positive ∈ lib_live h' /\ 5%positive ∈ lib_live h' /\ 6%positive ∈ lib_live h' /\
+    101%positive ∉ h_live h'.
+Proof. exact overwrite_member_refuted. Qed.
+Print Assumptions TB_overwrite_member_refuted.
+
+(** non-vacuity of [TB_patch_root_overwrite], [TB_no_aliasing_overwrite], [TB_patch_root_remove]: on [ow_heap]
+    — document root 1 = object with the owned key "doc" (102) and an owned valuestring "old" (101), members
+    2 (key 103) and 3 (key 105, valuestring 104); replacement root 10 = array [5, "x"] (nodes 11, 12,
+    valuestring 111) with the owned key "value" (110), as cJSON_Duplicate of the patch's "value" member returns
+    it; an unrelated root 20 — every hypothesis holds *)
+Theorem TB_nonvacuous_overwrite_hypotheses :
+  WF ow_heap ow_F /\ NoLeak ow_heap ow_F /\
+  find_root 1%positive ow_F = Some (T 1 ow_dr ow_csr) /\ find_root 10%positive ow_F = Some (T 10 ow_dx ow_csx) /\
+  1%positive <> 10%positive /\ is_ref ow_dr = false /\ key_owned ow_dr /\ key_owned ow_dx /\
+  rd_key ow_dr = Some 102%positive /\ rd_vstr ow_dr = Some 101%positive /\ rd_key ow_dx = Some 110%positive /\
+  is_ref ow_dx = false /\ Forall owns_strings ow_csx.
+Proof. exact ow_hypotheses. Qed.
+Print Assumptions TB_nonvacuous_overwrite_hypotheses.
+(** … nine blocks are released (key, valuestring, member 2 with its key, member 3 with valuestring and key, the
+    shell, the replacement's key), the forest is the new root 1 and the unrelated root 20, and the new root
+    reifies to the array [5, "x"] without key *)
+Theorem TB_nonvacuous_overwrite :
+  patch_released ow_dr ow_csr 10 ow_dx = [102; 101; 103; 2; 104; 105; 3; 10; 110]%positive /\
+  exists h',
+    patch_root_overwrite (Some 1%positive) (Some 10%positive) ow_heap = Ret (tt, h') /\
+    WF h' [T 1 (rd_no_key ow_dx) ow_csx; ow_num 20 7 None] /\
+    NoLeak h' [T 1 (rd_no_key ow_dx) ow_csx; ow_num 20 7 None] /\
+    lib_live h' = lib_live ow_heap ∖ list_to_set [102; 101; 103; 2; 104; 105; 3; 10; 110]%positive /\
+    reify (h_str h') (T 1 (rd_no_key ow_dx) ow_csx) =
+      Tree.Node c_cJSON_Array None 0 dzero None
+        [Tree.Node c_cJSON_Number None 5 (dbl_of_int 5) None []; Tree.Node c_cJSON_String (Some [120]) 0 dzero None []].
+Proof. exact (conj (proj1 ow_result) ow_instance). Qed.
+Print Assumptions TB_nonvacuous_overwrite.
+Theorem TB_nonvacuous_root_remove :
+  exists h',
+    patch_root_remove (Some 1%positive) ow_heap = Ret (tt, h') /\
+    WF h' [T 1 rd_invalid []; T 10 ow_dx ow_csx; ow_num 20 7 None] /\
+    NoLeak h' [T 1 rd_invalid []; T 10 ow_dx ow_csx; ow_num 20 7 None] /\
+    lib_live h' = lib_live ow_heap ∖ list_to_set [102; 101; 103; 2; 104; 105; 3]%positive /\
+    reify (h_str h') (T 1 rd_invalid []) = PatchDefs.invalid_node.
+Proof. exact ow_instance_remove. Qed.
+Print Assumptions TB_nonvacuous_root_remove.
+
+(** ------------------------------------------------------------------ 10. end to end: replace in object, duplicate *)
+
+(** cJSON_ReplaceItemInObject[CaseSensitive] (both case modes), under the hypotheses of the C06 lemma
+    (CoreRefineReplaceKey.replace_item_in_object_sim) plus NO-ALIASING: (1) as for add — no remaining node refers
+    to the identity about to be handed out or to the replacement's old owned key; (2) what remains — the object
+    without the member the lookup finds, the replacement's valuestring and children — refers to no block
+    released with that member.  When no member matches the call returns false and the object reifies as before
+    (the replacement keeps its new key: [TB_replace_by_key_explicit]). *)
+Theorem TB_e2e_replace_in_object : forall (oracle : nat -> bool) h F p r sb d dp cs csp (s : bytes),
+  WF h F -> KeysReadable h F ->
+  (forall (e : fnode) (b : positive), e ∈ flat F -> rd_key (fn_data e) = Some b -> is_const (fn_data e) = true -> b ∉ owned F) ->
+  (forall (e : fnode) (b : positive), e ∈ flat F -> rd_key (fn_data e) = Some b -> (b < h_next h)%positive) ->
+  find_root r F = Some (T r d cs) -> find_tree p (remove_root r F) = Some (T p dp csp) -> is_ref dp = false ->
+  Readable h sb -> h_str h !! sb = Some s -> oracle (h_req h) = false ->
+  (forall b : positive, b ∈ str_blocks (T p dp csp) ++ opt_list (rd_vstr d) ++ (cs ≫= str_blocks) ->
+                        b <> h_next h /\ b ∉ old_key d) ->
+  forall flag : bool,
+  (forall (j : nat) (v : Tree.node) (ty : tree),
+     CompareDefs.get_object_item (reify (h_str h) (T p dp csp)) (Some (cstr s)) flag = Some (j, v) -> csp !! j = Some ty ->
+     forall b : positive,
+       b ∈ str_blocks (T p dp (delete j csp)) ++ opt_list (rd_vstr d) ++ (cs ≫= str_blocks) -> b ∉ owned [ty]) ->
+  exists (b : bool) (h' : heap) (F' : forest),
+    replace_item_in_object oracle (Some p) (Some sb) (Some r) flag h = Ret (b, h') /\ WF h' F' /\
+    match v_replace_in_object (reify (h_str h) (T p dp csp)) (cstr s) (reify (h_str h) (T r d cs)) flag with
+    | Some obj' => b = true /\ reify (h_str h') <$> find_tree p F' = Some obj'
+    | None => b = false /\ reify (h_str h') <$> find_tree p F' = Some (reify (h_str h) (T p dp csp))
+    end.
+Proof. exact e2e_replace_in_object. Qed.
+Print Assumptions TB_e2e_replace_in_object.
+Theorem TB_replace_entry_points : forall (oracle : nat -> bool) object string newitem,
+  cJSON_ReplaceItemInObject oracle object string newitem = replace_item_in_object oracle object string newitem false /\
+  cJSON_ReplaceItemInObjectCaseSensitive oracle object string newitem = replace_item_in_object oracle object string newitem true.
+Proof. exact cJSON_ReplaceItemInObject_is. Qed.
+
+(** both no-aliasing hypotheses hold for trees that own their strings … *)
+Theorem TB_no_aliasing_replace : forall h F p r d dp cs csp,
+  WF h F -> find_root r F = Some (T r d cs) -> find_tree p (remove_root r F) = Some (T p dp csp) ->
+  owns_strings (T p dp csp) -> is_ref d = false -> Forall owns_strings cs ->
+  (forall b : positive, b ∈ str_blocks (T p dp csp) ++ opt_list (rd_vstr d) ++ (cs ≫= str_blocks) ->
+                        b <> h_next h /\ b ∉ old_key d) /\
+  (forall (j : nat) (ty : tree), csp !! j = Some ty ->
+     forall b : positive, b ∈ str_blocks (T p dp (delete j csp)) ++ opt_list (rd_vstr d) ++ (cs ≫= str_blocks) ->
+                          b ∉ owned [ty]).
+Proof. exact replace_hypotheses_of_owned. Qed.
+Print Assumptions TB_no_aliasing_replace.
+(** … so for such trees the composition needs the C06 hypotheses only *)
+Theorem TB_e2e_replace_in_object_owned : forall (oracle : nat -> bool) h F p r sb d dp cs csp (s : bytes) (flag : bool),
+  WF h F -> KeysReadable h F ->
+  (forall (e : fnode) (b : positive), e ∈ flat F -> rd_key (fn_data e) = Some b -> is_const (fn_data e) = true -> b ∉ owned F) ->
+  (forall (e : fnode) (b : positive), e ∈ flat F -> rd_key (fn_data e) = Some b -> (b < h_next h)%positive) ->
+  find_root r F = Some (T r d cs) -> find_tree p (remove_root r F) = Some (T p dp csp) -> is_ref dp = false ->
+  Readable h sb -> h_str h !! sb = Some s -> oracle (h_req h) = false ->
+  owns_strings (T p dp csp) -> is_ref d = false -> Forall owns_strings cs ->
+  exists (b : bool) (h' : heap) (F' : forest),
+    replace_item_in_object oracle (Some p) (Some sb) (Some r) flag h = Ret (b, h') /\ WF h' F' /\
+    match v_replace_in_object (reify (h_str h) (T p dp csp)) (cstr s) (reify (h_str h) (T r d cs)) flag with
+    | Some obj' => b = true /\ reify (h_str h') <$> find_tree p F' = Some obj'
+    | None => b = false /\ reify (h_str h') <$> find_tree p F' = Some (reify (h_str h) (T p dp csp))
+    end.
+Proof. exact e2e_replace_in_object_owned. Qed.
+Print Assumptions TB_e2e_replace_in_object_owned.
+
+(** cJSON_Duplicate(item, 1), under the hypotheses of C11_copy_subtree plus: a CONSTANT key of the source (which
+    [strs_readable] does not cover) designates a block below the allocator pointer — otherwise the allocator
+    could hand out that identity and the source itself would reify differently afterwards.  Either NULL (the
+    heap encodes the same forest, the strings are untouched, some request was refused) or a new root whose
+    reification is what BOTH value-level duplicates compute from the reified source; the source reifies as before. *)
+Theorem TB_e2e_duplicate : forall (oracle : nat -> bool) h F p t,
+  WF h F -> Closed h -> find_tree p F = Some t ->
+  CoreRefineDupForest.strs_readable h t -> CoreRefineDupForest.no_borrowed t ->
+  (CoreRefineDupForest.height t <= Z.to_nat c_CJSON_CIRCULAR_LIMIT)%nat ->
+  (forall (i : positive) (d : rdata) (ks : list positive) (b : positive),
+     (i, d, ks) ∈ flat_t t -> rd_key d = Some b -> is_const d = true -> (b < h_next h)%positive) ->
+  exists (r : ptr) (h' : heap),
+    cJSON_Duplicate oracle (Some p) true h = Ret (r, h') /\
+    ((r = None /\ WF h' F /\ h_str h' = h_str h /\ ofail oracle h h') \/
+     (exists tc : tree,
+        r = Some (tid tc) /\ WF h' (F ++ [tc]) /\ find_root (tid tc) (F ++ [tc]) = Some tc /\
+        PatchDefs.cJSON_Duplicate (reify (h_str h) t) = Some (reify (h_str h') tc) /\
+        MergeDefs.mp_Duplicate (Some (reify (h_str h) t)) = Some (reify (h_str h') tc) /\
+        reify (h_str h') t = reify (h_str h) t /\
+        oclean oracle h h')).
+Proof. exact e2e_duplicate. Qed.
+Print Assumptions TB_e2e_duplicate.
+(** without refused requests the copy is made *)
+Theorem TB_e2e_duplicate_no_failure : forall h F p t,
+  WF h F -> Closed h -> find_tree p F = Some t ->
+  CoreRefineDupForest.strs_readable h t -> CoreRefineDupForest.no_borrowed t ->
+  (CoreRefineDupForest.height t <= Z.to_nat c_CJSON_CIRCULAR_LIMIT)%nat ->
+  (forall (i : positive) (d : rdata) (ks : list positive) (b : positive),
+     (i, d, ks) ∈ flat_t t -> rd_key d = Some b -> is_const d = true -> (b < h_next h)%positive) ->
+  exists (tc : tree) (h' : heap),
+    cJSON_Duplicate (fun _ => false) (Some p) true h = Ret (Some (tid tc), h') /\
+    WF h' (F ++ [tc]) /\ find_root (tid tc) (F ++ [tc]) = Some tc /\
+    PatchDefs.cJSON_Duplicate (reify (h_str h) t) = Some (reify (h_str h') tc) /\
+    MergeDefs.mp_Duplicate (Some (reify (h_str h) t)) = Some (reify (h_str h') tc) /\
+    reify (h_str h') t = reify (h_str h) t.
+Proof. exact e2e_duplicate_no_failure. Qed.
+Print Assumptions TB_e2e_duplicate_no_failure.
+
+(** non-vacuity on [ex_heap] / [ex_F]: the hypotheses of [TB_e2e_replace_in_object(_owned)] hold for the object
+    1, the replacement 7 and the name blocks 111 "A" / 112 "zz" … *)
+Theorem TB_nonvacuous_replace_hypotheses :
+  WF ex_heap ex_F /\ KeysReadable ex_heap ex_F /\
+  (forall (e : fnode) (b : positive),
+     e ∈ flat ex_F -> rd_key (fn_data e) = Some b -> is_const (fn_data e) = true -> b ∉ owned ex_F) /\
+  (forall (e : fnode) (b : positive), e ∈ flat ex_F -> rd_key (fn_data e) = Some b -> (b < h_next ex_heap)%positive) /\
+  find_root 7%positive ex_F = Some (T 7 (tdata ex_item) []) /\
+  find_tree 1%positive (remove_root 7%positive ex_F) = Some (T 1 ex_objd ex_members) /\
+  is_ref ex_objd = false /\
+  Readable ex_heap 111 /\ h_str ex_heap !! 111%positive = Some [65; 0] /\
+  Readable ex_heap 112 /\ h_str ex_heap !! 112%positive = Some [122; 122; 0] /\
+  owns_strings (T 1 ex_objd ex_members) /\ is_ref (tdata ex_item) = false /\ Forall owns_strings ([] : list tree).
+Proof. exact ex_replace_hypotheses. Qed.
+Print Assumptions TB_nonvacuous_replace_hypotheses.
+(** … "A" case-insensitively replaces member 2 ("a", the FIRST folded match), case-sensitively member 3; "zz" is
+    refused and the object reifies as before *)
+Theorem TB_nonvacuous_e2e_replace :
+  (exists (h' : heap) (F' : forest),
+     replace_item_in_object (fun _ => false) (Some 1%positive) (Some 111%positive) (Some 7%positive) false ex_heap = Ret (true, h') /\
+     WF h' F' /\
+     reify (h_str h') <$> find_tree 1%positive F' = Some (reify ex_St (T 1 ex_objd [ex_item_keyed; m3; ex_arr]))) /\
+  (exists (h' : heap) (F' : forest),
+     replace_item_in_object (fun _ => false) (Some 1%positive) (Some 111%positive) (Some 7%positive) true ex_heap = Ret (true, h') /\
+     WF h' F' /\
+     reify (h_str h') <$> find_tree 1%positive F' = Some (reify ex_St (T 1 ex_objd [m2; ex_item_keyed; ex_arr]))) /\
+  (exists (h' : heap) (F' : forest),
+     replace_item_in_object (fun _ => false) (Some 1%positive) (Some 112%positive) (Some 7%positive) false ex_heap = Ret (false, h') /\
+     WF h' F' /\
+     reify (h_str h') <$> find_tree 1%positive F' = Some (reify ex_St ex_obj)).
+Proof. exact (conj ex_e2e_replace_ci (conj ex_e2e_replace_cs ex_e2e_replace_refused)). Qed.
+Print Assumptions TB_nonvacuous_e2e_replace.
+
+(** the hypotheses of [TB_e2e_duplicate] hold for the object 1 of [ex_heap]; without refused requests the copy
+    is made and reifies to the object itself; with the first request refused the result is NULL *)
+Theorem TB_nonvacuous_duplicate_hypotheses :
+  WF ex_heap ex_F /\ Closed ex_heap /\ find_tree 1%positive ex_F = Some ex_obj /\
+  CoreRefineDupForest.strs_readable ex_heap ex_obj /\ CoreRefineDupForest.no_borrowed ex_obj /\
+  (CoreRefineDupForest.height ex_obj <= Z.to_nat c_CJSON_CIRCULAR_LIMIT)%nat /\
+  (forall (i : positive) (d : rdata) (ks : list positive) (b : positive),
+     (i, d, ks) ∈ flat_t ex_obj -> rd_key d = Some b -> is_const d = true -> (b < h_next ex_heap)%positive) /\
+  (forall b : positive, b ∈ str_blocks ex_obj -> (b < h_next ex_heap)%positive).
+Proof. exact ex_duplicate_hypotheses. Qed.
+Print Assumptions TB_nonvacuous_duplicate_hypotheses.
+Theorem TB_nonvacuous_e2e_duplicate :
+  (exists (tc : tree) (h' : heap),
+     cJSON_Duplicate (fun _ => false) (Some 1%positive) true ex_heap = Ret (Some (tid tc), h') /\
+     WF h' (ex_F ++ [tc]) /\ find_root (tid tc) (ex_F ++ [tc]) = Some tc /\
+     PatchDefs.cJSON_Duplicate ex_o = Some (reify (h_str h') tc) /\
+     MergeDefs.mp_Duplicate (Some ex_o) = Some (reify (h_str h') tc) /\
+     reify (h_str h') tc = ex_o /\ reify (h_str h') ex_obj = ex_o) /\
+  (exists h' : heap,
+     cJSON_Duplicate (fun k => Nat.eqb k 0) (Some 1%positive) true ex_heap = Ret (None, h') /\
+     WF h' ex_F /\ h_str h' = h_str ex_heap).
+Proof. exact (conj ex_e2e_duplicate ex_e2e_duplicate_failure). Qed.
+Print Assumptions TB_nonvacuous_e2e_duplicate.
